@@ -308,6 +308,8 @@ def attributed(P, f, depth=0):
                         if k in P.fns and k != g.key:
                             idx.setdefault(k, set()).add(g.key)
         _callers[id(P)] = idx
+    if any(f.key.endswith(suffix) for (suffix, _k) in REVIEWED):
+        return f.key        # a function with reviewed rows of its own keeps them, however many callers it has in this configuration
     cs = _callers[id(P)].get(f.key, set())
     if depth < 3 and f.kind != "Closure" and f.j.get("vis", "") != "Public" and not f.j.get("impl_trait") and not f.j.get("reachable") \
             and len(cs) == 1 and f.crate.startswith("frost"):
